@@ -261,7 +261,7 @@ class _Base(SubCheck):
             used = 0
             for k in range(cnt):
                 nm = "%d.%d" % (ci, k)
-                pos = e.int("pos" + nm, 0, 100000)
+                pos = e.int("pos" + nm, 0, 3000 if shape.get("lengths") else 100000)
                 if prev is not None:
                     e.assume(prev < pos)
                 prev = pos
@@ -294,7 +294,9 @@ class _Base(SubCheck):
                     else:
                         extra = [("HP", ".")] if dot else []
                 specs.append(RecordSpec(chrom, pos, "A", "C" if snv else "CT", gt, extra))
-        content = VcfContent(SAMPLE, [(c, None) for c in CHROMS], specs)
+        # contig lengths are only needed for NG50 (no clause of the property; the value is compared between the
+        # symbolic run and the real run)
+        content = VcfContent(SAMPLE, [(c, 4000 if shape.get("lengths") else None) for c in CHROMS], specs)
         return recs, content
 
     # -- independent count ------------------------------------------------------
@@ -419,6 +421,11 @@ class _Base(SubCheck):
                 e.out("%s.%s" % (c, f), row[f])
         e.out("blocklist", res.blocklist)
         e.out("gtf", res.gtf)
+        if shape.get("lengths"):
+            for c, row, _ in res.rows:
+                v = row["block_n50"]
+                e.out("%s.block_n50" % c, None if (isinstance(v, float) and v != v) else v)
+                e.cover("NG50 computed")
         if n_none:
             e.cover("missing or partial genotype present")
         failed = self.judge(e, recs, res, only_snvs, chromosomes, block_list, False)
@@ -510,7 +517,7 @@ class Counts(_Base):
 
 class Blocks(_Base):
     name = "blocks"
-    required_cover = ["ALL row", "interleaved phase sets", "nested phase sets", "three phase sets on one chromosome", "phase set split into two pieces"]
+    required_cover = ["ALL row", "interleaved phase sets", "nested phase sets", "three phase sets on one chromosome", "phase set split into two pieces", "NG50 computed"]
 
     def shapes(self, tier):
         # 6 records on one chromosome are the smallest input on which a phase set is cut into two pieces of >= 2 variants
@@ -521,11 +528,13 @@ class Blocks(_Base):
                 if tag == "HP" and sum(n) > 5:
                     continue
                 out.append(dict(n=list(n), tag=tag, dot=False, only_snvs=False, chromosomes=None, snv=False, menu=["het", "ph"]))
+        for n in [(4, 0), (2, 2)]:
+            out.append(dict(n=list(n), tag="PS", dot=False, only_snvs=False, chromosomes=None, snv=False, menu=["het", "ph"], lengths=True))
         return out
 
     def bounds(self, tier):
         sh = self.shapes(tier)
-        return "%d shapes: <= %d heterozygous SNV records on <= 2 chromosomes, symbolic positions in [0,100000], each record unphased or member of one of <= 3 phase sets (all interleavings / nestings), PS and HP encodings" % (len(sh), max(sum(s["n"]) for s in sh))
+        return "%d shapes: <= %d heterozygous SNV records on <= 2 chromosomes, symbolic positions in [0,100000], each record unphased or member of one of <= 3 phase sets (all interleavings / nestings), PS and HP encodings; two shapes with contig lengths (NG50 compared between symbolic and real run only)" % (len(sh), max(sum(s["n"]) for s in sh))
 
     def cover_input(self, e, recs, shape):
         for c in CHROMS:
